@@ -51,6 +51,7 @@ def main():
     if a.reindex: sys.exit(reindex())
     if a.prop not in CHECKS: print('unknown property', a.prop); sys.exit(2)
     seed = int(os.environ.get('VERIF_SEED', '1'))
+    os.environ['VERIF_TIER_EFFECTIVE'] = a.tier
     mod = importlib.import_module(CHECKS[a.prop])
     try:
         rc = mod.check(a.prop, a.tier, seed, replay=json.load(open(a.replay)) if a.replay else None)
